@@ -1634,6 +1634,8 @@ EnsureSizeAux(uint32 size, bool setNumItems, uint32 extraPreallocs, ItemType ** 
 
    if ((_queue == NULL)||(allowShrink ? (_queueSize != (size+extraPreallocs)) : (_queueSize < size)))
    {
+      if (WillUnsignedAddOverflow(size, extraPreallocs)) return B_RESOURCE_LIMIT;  // otherwise (size+extraPreallocs) would wrap around to a too-small array
+
       const uint32 sqLen = ARRAYITEMS(_smallQueue);
       const uint32 temp  = size + extraPreallocs;
       uint32 newQLen = muscleMax((uint32)ARRAYITEMS(_smallQueue), ((setNumItems)||(temp <= sqLen)) ? muscleMax(sqLen,temp) : temp);
